@@ -278,9 +278,15 @@ where
                 group_id: y.group_id,
                 auth_message_id: operation.id(),
                 direct_messages: vec![],
-                space_dependencies,
+                space_dependencies: space_dependencies.clone(),
             };
             let message = manager.identity.forge(args).await?;
+
+            // Keep track of our own pointers in the space graph, like every other peer does when
+            // processing them.
+            y.encryption_y
+                .orderer
+                .add_dependency(message.hash(), &space_dependencies);
 
             space_dependencies = vec![message.hash()];
             messages.push(message);
